@@ -118,6 +118,8 @@ def gaussian_syn_likelihood(ssx, ssy, shrinkage=None, penalty=None, whitening=No
         gl = graphical_lasso(sample_cov, alpha=penalty, max_iter=200)
         # NOTE: able to get precision matrix here as well
         sample_cov = gl[0]
+        if standardise:
+            sample_cov = np.outer(std, std) * sample_cov
 
     if shrinkage == 'warton':
         sample_cov = cov_warton(sample_cov, 1-penalty)
